@@ -769,6 +769,9 @@ class CallMixin:
                         return a
                     b = self.materialize(b)
                 return self.seq_concat(a, b)
+        if name == 'getattr' and self.reg.get('builtins.getattr') is not None and isinstance(args[1], (VSeq, VView)):
+            c = self.reg.get('builtins.getattr')
+            return self.apply_contract(c, None, self.bind_contract(c, args, kwargs), fr, node)
         if name == 'getattr':
             if isinstance(args[1], VOpaque) and args[1].tag == 'const':
                 return self.getattr(args[0], args[1].py, fr, node)
@@ -836,6 +839,11 @@ class CallMixin:
                 raise Unsupported("append to a temporary list")
             self.write_back(ast.Name(id=org[1], ctx=ast.Load()) if org[0] == 'var' else org[1], new, fr)
             return VNone()
+        if name == 'startswith' and isinstance(s, (VSeq, VView)) and s.skind == 'str' and len(args) == 1 and \
+                isinstance(args[0], VOpaque) and args[0].tag == 'const' and isinstance(args[0].py, str):
+            pre = args[0].py
+            conds = [s.n >= len(pre)] + [self.as_int(seq_get(s, z3.IntVal(k))) == ord(ch) for k, ch in enumerate(pre)]
+            return VBool(z3.And(conds))
         if name in ('keys', 'values', 'items', 'elements', 'copy', 'index', 'count', 'extend', 'pop', 'sort'):
             raise Unsupported(f"sequence/dict method {name}")
         raise Unsupported(f"sequence method {name}")
